@@ -896,11 +896,16 @@ func runShutdownScenario(t *testing.T, rec *recorder, cfg *sysCfg, seed uint64, 
 		rec.emit("StopRet", "err", errClass(err))
 	case "OnTick":
 		atomic.StoreInt32(&h.tickStop, atomic.LoadInt32(&h.ticks)+1)
-	case "OnOpen", "OnTraffic", "OnClose":
+	case "OnOpen", "OnTraffic", "OnClose", "OnTrafficClosed":
 		// one more connection whose callback asks for the shutdown
 		sp := mk(99)
 		sp.stopOn = cfg.stopSrc
 		sp.total, sp.segs, sp.consume = 100, []int{100}, "all"
+		if cfg.stopSrc == "OnTrafficClosed" {
+			// the OnTraffic that answers Shutdown has closed its own connection (EventLoop.Close) a moment before:
+			// the action of a callback counts whatever the callback did to its connection
+			sp.stopOn, sp.closeAt, sp.closeHow, sp.reply = "OnTraffic", 0, "elclose", "none"
+		}
 		if cfg.stopSrc == "OnClose" {
 			sp.shut = "close"
 		}
@@ -989,8 +994,9 @@ func TestVerifShutdown(t *testing.T) {
 	defer rec.uninstall()
 	rng := vsup.NewRng(vsup.Seed() + 4242)
 	rounds := vsup.EnvInt("VERIF_ROUNDS", 1)
-	// ("OnTrafficWake": the OnTraffic that answers Shutdown is one caused by Conn.Wake with a callback)
-	sources := []string{"Engine.Stop", "Stop", "OnTick", "OnOpen", "OnTraffic", "OnTrafficWake", "OnClose", "OnBoot"}
+	// ("OnTrafficWake": the OnTraffic that answers Shutdown is one caused by Conn.Wake with a callback;
+	// "OnTrafficClosed": it has closed its own connection through EventLoop.Close before answering)
+	sources := []string{"Engine.Stop", "Stop", "OnTick", "OnOpen", "OnTraffic", "OnTrafficWake", "OnTrafficClosed", "OnClose", "OnBoot"}
 	for r := 0; r < rounds; r++ {
 		for i, src := range sources {
 			for _, reuse := range []bool{false, true} {
